@@ -481,3 +481,25 @@ def silent_break_family():
         E_('B'), ('xor', ((E_('L'), B), (B,), (E_('W'),))))), E_('C'))),
         E_('R')))
     return out
+
+
+def sibling_breaks_family():
+    """inside F but beyond its size bound: one loop body with two or three
+    separate XORs that each have a break branch"""
+    E_ = lambda n: ('ev', n)  # noqa: E731
+    B = ('break',)
+
+    def x(a, b, first):
+        return ('xor', ((E_(b), B), (E_(a),))) if first else \
+            ('xor', ((E_(a),), (E_(b), B)))
+    out = []
+    for tail in ((), (E_('Z'),)):
+        for f1 in (False, True):
+            for f2 in (False, True):
+                body = (E_('F'), x('G', 'H', f1), E_('I'), x('K', 'L', f2))
+                out.append((E_('A'), ('loop', body + (E_('M'),))) + tail)
+                out.append((E_('A'), ('loop', body)) + tail)
+        body3 = (E_('F'), x('G', 'H', False), E_('I'), x('K', 'L', False),
+                 E_('M'), x('N', 'O', False), E_('P'))
+        out.append((E_('A'), ('loop', body3)) + tail)
+    return out
